@@ -11,6 +11,9 @@ modes:
   extract-var  `x = f(g(a), b)` (first argument a call)  -> `tmp = g(a); x = f(tmp, b)`
   inline-var   `v = e` directly followed by the only use of v -> e substituted
   expand-aug   `x op= e` -> `x = x op e`  (every augmented assignment of this package is on Python numbers)
+  add-logging  a debug log call inserted at the start of every function and before every return
+  comp-to-loop `x = [e for t in it if c]` / `{k: v for ...}` (one generator) -> empty container + explicit loop
+  swap-adjacent  two adjacent, independent, call-free simple assignments exchanged
   to-keyword   positional arguments of calls to package functions with a unique name -> keyword arguments
   to-positional  keyword arguments (leading positional-or-keyword parameters, in order) -> positional
 The output is produced with ast.unparse (comments are lost, which no check reads).
@@ -142,9 +145,60 @@ class _Repl(ast.NodeTransformer):
         return self.val if n.id == self.name and isinstance(n.ctx, ast.Load) else n
 
 
+def _names(e: ast.AST, ctx: type) -> set[str]:
+    return {n.id for n in ast.walk(e) if isinstance(n, ast.Name) and isinstance(n.ctx, ctx)}
+
+
 def block_rewrites(fn: ast.AST, modes: set[str]) -> int:
     count = 0
     k = 0
+    if 'comp-to-loop' in modes or 'swap-adjacent' in modes:
+        for node in ast.walk(fn):
+            for fld in ('body', 'orelse', 'finalbody'):
+                blk = getattr(node, fld, None)
+                if not (isinstance(blk, list) and blk and isinstance(blk[0], ast.stmt)):
+                    continue
+                if 'comp-to-loop' in modes:
+                    i = 0
+                    while i < len(blk):
+                        st = blk[i]
+                        v = st.value if isinstance(st, ast.Assign) and len(st.targets) == 1 and isinstance(st.targets[0], ast.Name) else None
+                        if isinstance(v, (ast.ListComp, ast.DictComp)) and len(v.generators) == 1 and not v.generators[0].is_async \
+                                and st.targets[0].id not in _names(v, ast.Load):
+                            g = v.generators[0]
+                            tgt = st.targets[0].id
+                            if isinstance(v, ast.ListComp):
+                                init: ast.expr = ast.List(elts=[], ctx=ast.Load())
+                                body: ast.stmt = ast.Expr(value=ast.Call(func=ast.Attribute(value=ast.Name(id=tgt, ctx=ast.Load()), attr='append', ctx=ast.Load()), args=[v.elt], keywords=[]))
+                            else:
+                                init = ast.Dict(keys=[], values=[])
+                                body = ast.Assign(targets=[ast.Subscript(value=ast.Name(id=tgt, ctx=ast.Load()), slice=v.key, ctx=ast.Store())], value=v.value, lineno=st.lineno)
+                            for c in reversed(g.ifs):
+                                body = ast.If(test=c, body=[body], orelse=[])
+                            loop = ast.For(target=g.target, iter=g.iter, body=[body], orelse=[], lineno=st.lineno)
+                            blk[i:i + 1] = [ast.copy_location(ast.Assign(targets=[ast.Name(id=tgt, ctx=ast.Store())], value=init, lineno=st.lineno), st), ast.copy_location(loop, st)]
+                            count += 1
+                            i += 2
+                            continue
+                        i += 1
+                if 'swap-adjacent' in modes:
+                    i = 0
+                    while i + 1 < len(blk):
+                        a, b = blk[i], blk[i + 1]
+                        ok = all(isinstance(x, ast.Assign) and len(x.targets) == 1 and isinstance(x.targets[0], (ast.Name, ast.Attribute)) and _callfree(x) for x in (a, b))
+                        if ok:
+                            ta, tb = ast.unparse(a.targets[0]), ast.unparse(b.targets[0])
+                            ra, rb = ast.unparse(a.value), ast.unparse(b.value)
+                            root = lambda t: t.split('.')[0]  # noqa: E731
+                            indep = ta != tb and ta not in rb and tb not in ra and root(ta) not in (tb,) and root(tb) not in (ta,) \
+                                and not (isinstance(a.targets[0], ast.Name) and a.targets[0].id in _names(b, ast.Load)) \
+                                and not (isinstance(b.targets[0], ast.Name) and b.targets[0].id in _names(a, ast.Load))
+                            if indep:
+                                blk[i], blk[i + 1] = b, a
+                                count += 1
+                                i += 2
+                                continue
+                        i += 1
     for node in ast.walk(fn):
         for fld in ('body', 'orelse', 'finalbody'):
             blk = getattr(node, fld, None)
@@ -252,7 +306,20 @@ def main() -> None:
                     at = ArgStyle(SIGS, am)
                     tree = at.visit(tree)
                     t.count += at.count
-                if modes & {'extract-var', 'inline-var'}:
+                if 'add-logging' in modes:
+                    for fn_ in [n for n in ast.walk(tree) if isinstance(n, (ast.FunctionDef, ast.AsyncFunctionDef))]:
+                        log = ast.parse(f"_tw_logging.getLogger(__name__).debug('enter {fn_.name}')").body[0]
+                        k0 = 1 if fn_.body and isinstance(fn_.body[0], ast.Expr) and isinstance(fn_.body[0].value, ast.Constant) and isinstance(fn_.body[0].value.value, str) else 0
+                        fn_.body.insert(k0, log)
+                        t.count += 1
+                    tree.body.insert(1 if tree.body and isinstance(tree.body[0], ast.Expr) else 0, ast.parse('import logging as _tw_logging').body[0])
+                    # `from __future__` imports must stay first
+                    fut = [x for x in tree.body if isinstance(x, ast.ImportFrom) and x.module == '__future__']
+                    for x in fut:
+                        tree.body.remove(x)
+                    k1 = 1 if tree.body and isinstance(tree.body[0], ast.Expr) and isinstance(tree.body[0].value, ast.Constant) else 0
+                    tree.body[k1:k1] = fut
+                if modes & {'extract-var', 'inline-var', 'comp-to-loop', 'swap-adjacent'}:
                     for fn_ in [n for n in ast.walk(tree) if isinstance(n, (ast.FunctionDef, ast.AsyncFunctionDef))]:
                         t.count += block_rewrites(fn_, modes)
                 ast.fix_missing_locations(tree)
